@@ -279,3 +279,63 @@ Qed.
 Theorem last_stats_after_scrape st r stopped :
   ss_last (scrape_status st r stopped) = match r with ScrOk kept all => Some (kept, all) | ScrFail => None end.
 Proof. destruct r; reflexivity. Qed.
+
+(* ---- the generated file (model_injected): per job exactly the hashes of the targets assigned to that job ---- *)
+Lemma insert_N_in x y l : In y (insert_N x l) <-> y = x \/ In y l.
+Proof.
+  induction l as [|z r IH]; cbn; [intuition|]. destruct (x <=? z)%N; cbn; [intuition|]. rewrite IH. intuition.
+Qed.
+Lemma sort_N_in y l : In y (fold_right insert_N [] l) <-> In y l.
+Proof. induction l as [|x r IH]; cbn; [reflexivity|]. rewrite insert_N_in, IH. intuition. Qed.
+Lemma merge_N_in y a b : In y (fold_right insert_N b a) <-> In y a \/ In y b.
+Proof. induction a as [|x r IH]; cbn; [intuition|]. rewrite insert_N_in, IH. intuition. Qed.
+
+Definition job_has (l : list (N * list N)) (j h : N) : Prop := exists hs, In (j, hs) l /\ In h hs.
+
+Lemma insert_job_has j hs l j' h : job_has (insert_job j hs l) j' h <-> (j' = j /\ In h hs) \/ job_has l j' h.
+Proof.
+  unfold job_has. induction l as [|[k ks] r IH]; cbn [insert_job].
+  - split.
+    + intros [x [[E|[]] Hh]]. injection E as <- <-. now left.
+    + intros [[-> Hh]|[x [[] _]]]. exists hs. split; [now left|exact Hh].
+  - destruct (N.eqb_spec j k) as [<-|Hjk].
+    + split.
+      * intros [x [[E|Hin] Hh]].
+        -- injection E as <- <-. apply merge_N_in in Hh. destruct Hh as [Hh|Hh]; [now left|right; exists ks; split; [now left|exact Hh]].
+        -- right. exists x. split; [now right|exact Hh].
+      * intros [[-> Hh]|[x [[E|Hin] Hh]]].
+        -- exists (fold_right insert_N ks hs). split; [now left|]. apply merge_N_in. now left.
+        -- injection E as <- <-. exists (fold_right insert_N ks hs). split; [now left|]. apply merge_N_in. now right.
+        -- exists x. split; [now right|exact Hh].
+    + destruct (j <? k)%N.
+      * split.
+        -- intros [x [[E|Hin] Hh]]; [injection E as <- <-; now left|]. right. exists x. auto.
+        -- intros [[-> Hh]|[x [Hin Hh]]]; [exists hs; split; [now left|exact Hh]|]. exists x. split; [now right|exact Hh].
+      * split.
+        -- intros [x [[E|Hin] Hh]].
+           ++ right. exists x. split; [left; exact E|exact Hh].
+           ++ destruct (proj1 IH (ex_intro _ x (conj Hin Hh))) as [H|[y [Hy Hh']]]; [now left|]. right. exists y. split; [now right|exact Hh'].
+        -- intros [[-> Hh]|[x [[E|Hin] Hh]]].
+           ++ destruct (proj2 IH (or_introl (conj eq_refl Hh))) as [y [Hy Hh']]. exists y. split; [now right|exact Hh'].
+           ++ exists x. split; [left; exact E|exact Hh].
+           ++ destruct (proj2 IH (or_intror (ex_intro _ x (conj Hin Hh)))) as [y [Hy Hh']]. exists y. split; [now right|exact Hh'].
+Qed.
+
+Theorem injected_spec s j h :
+  job_has (model_injected s) j h <-> exists ts, In (j, ts) (sc_targets s) /\ In h (map t_hash ts).
+Proof.
+  unfold model_injected.
+  assert (Hf : forall l, job_has (filter (fun jh : N * list N => negb (match snd jh with [] => true | _ => false end)) l) j h <-> job_has l j h).
+  { intros l. unfold job_has. split.
+    - intros [hs [Hin Hh]]. apply filter_In in Hin. exists hs. tauto.
+    - intros [hs [Hin Hh]]. exists hs. split; [|exact Hh]. apply filter_In. split; [exact Hin|]. destruct hs; [destruct Hh|reflexivity]. }
+  rewrite Hf. induction (sc_targets s) as [|[k ts] r IH]; cbn [fold_right fst snd].
+  - split; [intros [x [[] _]]|intros [x [[] _]]].
+  - rewrite insert_job_has, sort_N_in, IH. split.
+    + intros [[-> Hh]|[x [Hin Hh]]]; [exists ts; split; [now left|exact Hh]|exists x; split; [now right|exact Hh]].
+    + intros [x [[E|Hin] Hh]]; [injection E as <- <-; now left|right; exists x; auto].
+Qed.
+
+Theorem injected_after_update s req now ok j h :
+  job_has (model_injected (fst (do_update s req now ok))) j h <-> exists ts, In (j, ts) req /\ In h (map t_hash ts).
+Proof. rewrite injected_spec. unfold do_update. destruct ok; reflexivity. Qed.
